@@ -19,12 +19,42 @@ DST_ZONES = ['America/New_York', 'Europe/London', 'Australia/Lord_Howe',
              'Australia/Sydney', 'America/Sao_Paulo', 'Africa/Casablanca']
 
 
+class Floating(datetime.tzinfo):
+    """A tzinfo that does not know its offset: by Python's definition a
+    datetime carrying it is naive."""
+
+    def utcoffset(self, dt):
+        return None
+
+    def dst(self, dt):
+        return None
+
+    def tzname(self, dt):
+        return 'floating'
+
+    def __repr__(self):
+        return 'Floating()'
+
+
+class Stamp(datetime.datetime):
+    """An application subclass of datetime."""
+
+
+FLOATING = Floating()
+
+
 def forms(t, zones):
     """(label, input value, absolute instant) for instant t."""
     aware = EPOCH + datetime.timedelta(seconds=t)
     naive = aware.replace(tzinfo=None)
     yield 'naive', naive, t
     yield 'aware-utc', aware, t
+    yield 'naive-floating-tzinfo', naive.replace(tzinfo=FLOATING), t
+    if t % 5 == 0:
+        yield 'naive-subclass', Stamp(naive.year, naive.month, naive.day,
+                                      naive.hour, naive.minute,
+                                      naive.second), t
+        yield 'aware-subclass', Stamp.fromtimestamp(t, tz=FIXED[0]), t
     for i, tz in enumerate(FIXED):
         yield 'aware-fixed%d' % i, aware.astimezone(tz), t
     st = time.struct_time((naive.year, naive.month, naive.day, naive.hour,
